@@ -36,11 +36,11 @@ ASSUMPTIONS = [
     'and default Dt = 0.01 play no role)',
     'attitudes are compared up to the common sign of the quaternion (the statement is about attitudes); max-abs component',
     'closed form, step count n: tol (n+4)*1e-14 (design: n*1e-14); rounding of one step is <= ~4 ulp and accumulates at '
-    'most linearly; worst observed (thorough grid, see worst_observed closed.*): 3e-16 at n = 1, 3.7e-14 at n = 1000 with '
-    'a total angle of 500 rad, where the rounding of n*theta inside the reference dominates; observed/tol <= 0.009 at '
+    'most linearly; worst observed (thorough grid, see worst_observed closed.*): 4.4e-16 at n = 1, 2.4e-14 at n = 600 with '
+    'a total angle of 300 rad, where the rounding of n*theta inside the reference dominates; observed/tol <= 0.009 at '
     'every n; the smallest mutation (wrong half angle at theta = 1e-5) moves one step by 2.5e-6',
     'series: the reference is q (x) normalise(sum_{j<=k} (dt/2 (0,w))^j / j!) — the formula in the docstring of '
-    'AngularRate.update, evaluated with scalar cos/sin partial sums; floor 1e-13 (observed <= 5e-16 for orders 0,1); '
+    'AngularRate.update, evaluated with scalar cos/sin partial sums; floor 1e-13 (observed <= 3.4e-16 for orders 0,1 on the unchanged tree and for all orders once S**i is a matrix power); '
     'order bound with constant 1: err_k <= theta^(k+1) + 1e-13 (the ideal normalised truncation has err_k <= '
     '(theta/2)^(k+1), e.g. theta^3/24 for k = 1, theta^3/48 for k = 2, theta^5/960 for k = 3); '
     'monotonicity err_k <= err_(k-1) + 1e-13; the reference model itself is asserted to satisfy both on every grid point',
@@ -51,7 +51,8 @@ ASSUMPTIONS = [
     'input rows come from the reference model at total angles up to 150 rad, whose own rounding gives the observed '
     'worst 7.2e-15 * 2/dt, observed/tol <= 0.0072); a sign slip or lost factor moves the result by >= 1e-2 rad/s',
     're-integration: rotation angle between row i and the original row i <= sum_{j<=i} (theta_j - 2 sin(theta_j/2)) '
-    '* (1 + 1e-2) + (i+1) * 1e-13  (the chord rate (2/dt) sin(theta/2) under-rotates each step by ~theta^3/24)',
+    '* (1 + 1e-2) + (i+1) * 1e-13  (the chord rate (2/dt) sin(theta/2) under-rotates each step by ~theta^3/24; for a '
+    'constant rate the deviation IS this analytic deficit, so observed/budget = 1/1.01 by construction, not noise)',
     "method='integration' (cumulative Euler angles, ignores q0 by construction) is judged only for rates along one body "
     'axis, from the identity, row i = axis-angle((i+1) theta); tol 1e-13 + (i+1) * max(1, (i+1) theta) * 2e-15 (the '
     'running sum of i terms carries up to i roundings relative to its own size; observed/tol <= 0.0063)',
